@@ -26,7 +26,7 @@ RULE = ("A: a history is a sequence of events on a fresh setup; non-trivial = it
         "sequence). B: a constructor input is (setups, names); non-trivial = at least two setups, all non-empty (so that "
         "the type/order/state/name clauses decide); distinct by the input tuple")
 ASSUMPTIONS = [
-    "expected result of a run = result of that algorithm run alone on a fresh setup with the same data and parameters (computed once per parameter set, compared bit-wise with a 1e-12 fallback)",
+    "expected result of a run = result of that algorithm run alone on a fresh setup with the same data and parameters, computed once per parameter set in its own fresh child process and compared bit-wise (digest of every result and parameter field, NaN patterns included)",
     "when run_all is rejected because one algorithm lacks parameters, algorithms with parameters may or may not have been run (order of run_all is not part of the statement); each must equal one of its two admissible states",
     "pickle files are written to a scratch directory created and removed by the run",
 ]
@@ -58,14 +58,14 @@ def menu(kind):
             "FSDD": (lambda n: A.FSDD(name=n, nxseg=128), dict(sel_freq=[5.0], DF1=1.0, DF2=4.0, sppk=1, npmax=3)),
             "SSIcov": (lambda n: A.SSIcov(name=n, br=4, ordmax=6, hc=dict(NOHC)), dict(sel_freq=[5.0], order=6, rtol=10.0)),
             "SSIdat": (lambda n: A.SSIdat(name=n, br=4, ordmax=6, hc=dict(NOHC)), dict(sel_freq=[5.0], order=6, rtol=10.0)),
-            "pLSCF": (lambda n: A.pLSCF(name=n, ordmax=4, nxseg=128, hc=dict(NOHC)), dict(sel_freq=[5.0], order=3, rtol=10.0)),
+            "pLSCF": (lambda n: A.pLSCF(name=n, ordmax=6, nxseg=128, hc=dict(NOHC)), dict(sel_freq=[5.0], order=3, rtol=10.0)),
         }
     return {
         "FDD_MS": (lambda n: A.FDD_MS(name=n, nxseg=64), dict(sel_freq=[5.0], DF=1.0)),
         "EFDD_MS": (lambda n: A.EFDD_MS(name=n, nxseg=128), dict(sel_freq=[5.0], DF1=1.0, DF2=4.0, sppk=1, npmax=3)),
         "SSIcov_MS": (lambda n: A.SSIcov_MS(name=n, br=4, ordmax=6, hc=dict(NOHC)), dict(sel_freq=[5.0], order=6, rtol=10.0)),
         "SSIdat_MS": (lambda n: A.SSIdat_MS(name=n, br=4, ordmax=6, hc=dict(NOHC)), dict(sel_freq=[5.0], order=6, rtol=10.0)),
-        "pLSCF_MS": (lambda n: A.pLSCF_MS(name=n, ordmax=4, nxseg=128, hc=dict(NOHC)), dict(sel_freq=[5.0], order=3, rtol=10.0)),
+        "pLSCF_MS": (lambda n: A.pLSCF_MS(name=n, ordmax=6, nxseg=128, hc=dict(NOHC)), dict(sel_freq=[5.0], order=3, rtol=10.0)),
     }
 
 
@@ -96,26 +96,66 @@ def data_digest(ss):
 _REF = {}
 
 
+_MPE_ARGS = {}
+
+
+def mpe_args(kind, name):
+    """Extraction arguments. For pLSCF the order/frequency are chosen from the clean reference run (a parameter choice,
+    not an oracle): the highest model order that holds a retained pole, and that pole's frequency."""
+    return _MPE_ARGS.get((kind, name)) or menu(kind)[name][1]
+
+
+def _reference_job(item):
+    """Runs in a one-shot child process in which nothing of the library has been executed before."""
+    kind, name, seed = item
+    out = []
+    chosen = None
+    for _ in range(2):
+        ss, _u = build_setup(kind, seed)
+        mk, args = menu(kind)[name]
+        a = mk(name)
+        ss.add_algorithms(a)
+        d_added = res_digest(a)
+        ss.run_by_name(name)
+        d_ran = res_digest(a)
+        if name.startswith("pLSCF"):
+            Fn = np.asarray(a.result.Fn_poles)
+            cols = [c for c in range(Fn.shape[1]) if np.isfinite(Fn[:, c]).any()]
+            if not cols:
+                return ("NOPOLES", name)
+            c = cols[-1]
+            f = float(Fn[np.isfinite(Fn[:, c]), c][0])
+            args = dict(sel_freq=[f], order=int(c), rtol=1e-3)
+            chosen = args
+        ss.mpe(name, **args)
+        d_mpe = res_digest(a)
+        ss.run_by_name(name)          # re-run after extraction: a fresh result, extraction parameters kept
+        d_reran = res_digest(a)
+        out.append((d_added, d_ran, d_mpe, d_reran))
+    return ("ok" if out[0] == out[1] else "NONDET", out[0], chosen)
+
+
+def compute_references(plan, seed):
+    """Every isolated reference is computed in its own fresh child process (fork of a parent that has not executed any
+    library algorithm), so that state leaking between runs inside one process cannot make the reference agree with a
+    polluted run."""
+    import multiprocessing as mp
+
+    from mc.core import CheckError
+
+    todo = sorted({(kind, n, seed) for kind, subset in plan for n in subset})
+    with mp.get_context("fork").Pool(min(16, len(todo)), maxtasksperchild=1) as pool:
+        res = pool.map(_reference_job, todo, chunksize=1)
+    for k, r in zip(todo, res):
+        if r[0] == "NOPOLES":
+            raise CheckError(f"pLSCF reference run for {k} holds no retained pole at any order; the harness cannot build an extraction case")
+        _REF[k] = r[1] if r[0] == "ok" else ("NONDET", r[1])
+        if r[2]:
+            _MPE_ARGS[(k[0], k[1])] = r[2]
+
+
 def reference(kind, name, seed):
-    """(digest after run, digest after run+mpe) of the algorithm run alone on a fresh setup; also checks repeatability."""
-    k = (kind, name, seed)
-    if k not in _REF:
-        out = []
-        for _ in range(2):
-            ss, _u = build_setup(kind, seed)
-            mk, args = menu(kind)[name]
-            a = mk(name)
-            ss.add_algorithms(a)
-            d_added = res_digest(a)
-            ss.run_by_name(name)
-            d_ran = res_digest(a)
-            ss.mpe(name, **args)
-            d_mpe = res_digest(a)
-            ss.run_by_name(name)          # re-run after extraction: a fresh result, extraction parameters kept
-            d_reran = res_digest(a)
-            out.append((d_added, d_ran, d_mpe, d_reran))
-        _REF[k] = out[0] if out[0] == out[1] else ("NONDET", out)
-    return _REF[k]
+    return _REF[(kind, name, seed)]
 
 
 def events_for(kind, subset):
@@ -161,7 +201,7 @@ def run_history(kind, subset, events, hist, seed, scratch, judge_all=False):
             elif ev[0] == "runall":
                 ss.run_all()
             elif ev[0] == "mpe":
-                ss.mpe(ev[1], **(menu(kind)[ev[1]][1] if ev[1] != "NOPAR" else dict(sel_freq=[5.0])))
+                ss.mpe(ev[1], **(mpe_args(kind, ev[1]) if ev[1] != "NOPAR" else dict(sel_freq=[5.0])))
             elif ev[0] == "decoy":
                 run_decoy(kind, subset, seed)
             elif ev[0] == "saveload":
@@ -250,8 +290,7 @@ def run_history(kind, subset, events, hist, seed, scratch, judge_all=False):
             if flexible:
                 continue
             elif cur != refs[n][idx[st]]:
-                if not close_results(a, kind, n, st, seed):
-                    bad.append(f"{n}:{st}")
+                bad.append(f"{n}:{st}")
         if set(ss.algorithms) != set(model):
             bad.append("algorithm-set")
         if bad:
@@ -292,7 +331,7 @@ def run_decoy(kind, subset, seed):
     other.run_all()
     for n in subset:
         try:
-            other.mpe(n, **menu(kind)[n][1])
+            other.mpe(n, **mpe_args(kind, n))
         except Exception:
             pass
 
@@ -312,43 +351,6 @@ def sync_flexible(model, ss, refs, idx):
         else:
             bad.append(f"{n}:{st}-or-{ran_state}")
     return bad
-
-
-def close_results(a, kind, n, st, seed):
-    """Tolerance fallback (1e-12 relative, NaN patterns exact) against a fresh isolated run."""
-    ss, _ = build_setup(kind, seed)
-    mk, args = menu(kind)[n]
-    b = mk(n)
-    ss.add_algorithms(b)
-    if st != "added":
-        ss.run_by_name(n)
-    if st in ("mpe", "reran"):
-        ss.mpe(n, **args)
-    if st == "reran":
-        ss.run_by_name(n)
-    return _close(a.result, b.result) and _close(a.run_params, b.run_params)
-
-
-def _close(x, y):
-    if x is None or y is None:
-        return x is y
-    if hasattr(x, "model_fields") or hasattr(type(x), "model_fields"):
-        return all(_close(getattr(x, f), getattr(y, f)) for f in type(x).model_fields)
-    if isinstance(x, (list, tuple)):
-        return len(x) == len(y) and all(_close(a, b) for a, b in zip(x, y))
-    if isinstance(x, dict):
-        return set(x) == set(y) and all(_close(x[k], y[k]) for k in x)
-    if isinstance(x, np.ndarray) or isinstance(y, np.ndarray):
-        x, y = np.asarray(x), np.asarray(y)
-        if x.shape != y.shape:
-            return False
-        if x.dtype.kind in "fc":
-            nx, ny = np.isnan(x), np.isnan(y)
-            if not np.array_equal(nx, ny):
-                return False
-            return bool(np.allclose(x[~nx], y[~ny], rtol=1e-12, atol=0))
-        return bool(np.array_equal(x, y))
-    return x == y
 
 
 def _runner(hist):
@@ -498,11 +500,10 @@ def explore(ctx):
             depth, ud = 6, 2
         ctx.bounds = {"plan": [[k, list(s)] for k, s in plan], "merged_bfs_depth": depth, "unmerged_depth": ud,
                       "events_per_subset": [list(e) for e in events_for(*plan[0])], "samples": NS, "fs": FS}
+        compute_references(plan, ctx.seed)
         for kind, subset in plan:
             events = events_for(kind, subset)
             _CFG.update(kind=kind, subset=subset, events=events, seed=ctx.seed, scratch=scratch)
-            for n in subset:
-                reference(kind, n, ctx.seed)
             label = f"{kind}:{'+'.join(subset)}/"
             seen = bfs.merged(ctx, _runner, len(events), depth, label=label)
             items = list(seen.items())
@@ -525,6 +526,7 @@ def replay(case):
     scratch = tempfile.mkdtemp(prefix="c15_")
     try:
         evs = [tuple(e) for e in case["events"]]
+        compute_references([(case["kind"], tuple(case["subset"]))], case["seed"])
         t, _ = run_history(case["kind"], tuple(case["subset"]), evs, tuple(range(len(evs))), case["seed"], scratch, judge_all=True)
     finally:
         shutil.rmtree(scratch, ignore_errors=True)
